@@ -45,3 +45,6 @@ def check(chk, repo):
         "IFT theorem for smooth path-cost f_max (Falcao, Stolfi, Lotufo 2004)",
         "the analyser's normalisation (aliases, copy propagation, comparison canonicalisation) is faithful",
     ]
+    # premise: the weights that compete are the configured dissimilarity (flag, matrix and node pair of every selector)
+    from .c10 import check_walk_selectors
+    check_walk_selectors(rep, repo, 'model', 'SupervisedOPF', 'fit', set(), pre="WEIGHT:")
